@@ -1,7 +1,7 @@
 """C07 Template source maps are consistent for every templater and variant."""
 from harness import tmpl_jinja, tmpl_placeholder, tmpl_python
 
-KNOWN = {"F3": tmpl_python.known_f3, "F5": tmpl_jinja.known_f5}
+KNOWN = {"F3": tmpl_python.known_f3, "F5": tmpl_jinja.known_f5, "PY_COLLIDE_SKIP": tmpl_python.known_collide_skip}
 
 
 def units(tier, seed):
